@@ -90,6 +90,7 @@ class Report:
 
     # -- finishing ---------------------------------------------------------
     def finish(self):
+        from . import affine
         known = load_known_findings()
         open_keys = {e["key"]: e for e in known if e.get("property") == self.prop and e.get("status") == "open"}
         viol = [o for o in self.obs if not o.ok]
@@ -117,6 +118,10 @@ class Report:
                 replay_paths.append(p)
                 print("VIOLATION property=%s replay=%s" % (self.prop, p))
                 print("   rule=%s instance=%s %s %s" % (o.rule, o.instance, o.loc, o.detail))
+        if affine.truncated_paths and not new:
+            raise AnalysisError("analysis incomplete: %d path(s) were cut at a data-dependent loop (%s); "
+                                "no violation on the explored paths, but the property cannot be concluded"
+                                % (len(affine.truncated_paths), affine.truncated_paths[0]))
         self.write_evidence(len(new), len(printed))
         n_ok = sum(1 for o in self.obs if o.ok)
         print("%s tier=%s: %d obligations, %d discharged, %d known-finding(s), %d new violation(s); analysed %s; %.2fs"
